@@ -53,6 +53,8 @@ int main(int argc, char** argv) {
 	Rng rng(seed);
 	if (part == "reduced" || part == "all") {
 		reduced(rng, 8, 1, 0); reduced(rng, 8, 3, 12); reduced(rng, 16, 2, 65);
+		// key lengths around the 128-byte block boundaries of the streamed initial hash (28 bytes of parameters precede the key)
+		reduced(rng, 8, 1, 88); reduced(rng, 8, 1, 89); reduced(rng, 8, 1, 100); reduced(rng, 8, 1, 101); reduced(rng, 8, 1, 229);
 		if (thorough) { reduced(rng, 8, 2, 1); reduced(rng, 16, 3, 128); reduced(rng, 32, 3, 300); reduced(rng, 32, 1, 63); reduced(rng, 16, 1, 64); }
 	}
 	if (part == "full" || part == "all") {
